@@ -9,6 +9,7 @@ import Rivaas.Spec.BindAll
 import Rivaas.Model.BindNestJSON
 import Rivaas.Spec.BindNestJSON
 import Rivaas.Lemmas.BindPath
+import Rivaas.Model.BindAllNestJSON
 /-
 Driver for C04. Case line:
   <id> <G|T|B> <tag 0..4> <maxDepth> <maxSlice> <maxMap> <csv> <baseAuto> <nconv> { <leaf type key> <converter> }* <allErrors> <evB> <evC> <viaBinder> <Ty> <init Val>
@@ -524,8 +525,8 @@ def stepAll (id : String) (c : Case) (obs : List String) : String :=
         let m := bindMultiAll P c.cfg fs c.init c.srcs
         verdict id (encOutAll m == encObsAll o && emi) (Spec.specMultiAll P c.cfg fs c.init c.srcs o && es) "-" (encOutAll m)
       else
-        let m := bindAll P c.cfg c.tag c.ty c.init c.src
-        verdict id (encOutAll m == encObsAll o && emi) (Spec.specAll P c.cfg c.tag fs c.init c.src o && es) "-" (encOutAll m)
+        let m := bindAllJ P c.cfg c.tag c.ty c.init c.src
+        verdict id (encOutAll m == encObsAll o && emi) (Spec.specAllJ P c.cfg c.tag fs c.init c.src o && es) "-" (encOutAll m)
     | _ => s!"{id} bad-case type"
 
 def stepPlain (id : String) (c : Case) (obs : List String) : String :=
